@@ -55,8 +55,14 @@ func relImport(fromDir, toDir string, j int) string {
 }
 
 // fileBody is the definitions of file i (without its import lines)
+// bareFiles: files written as "umbrella" files - import lines only, no definitions (a variant of the combined-mode cases)
+var bareFiles map[int]bool
+
 func fileBody(ic *importCase, i int) string {
 	f := ic.Files[i-1]
+	if bareFiles[i] {
+		return ""
+	}
 	var b strings.Builder
 	if f.Pkg != "" {
 		fmt.Fprintf(&b, "const string go_package = \"example.com/x/%s\";\n", f.Pkg)
@@ -66,6 +72,9 @@ func fileBody(ic *importCase, i int) string {
 	fmt.Fprintf(&b, "struct T%d {\n\tint32 x;\n%s}\n", i, extra)
 	fmt.Fprintf(&b, "message U%d {\n\t1 -> int32 z;\n", i)
 	for k, j := range f.Imports {
+		if bareFiles[j] {
+			continue // an umbrella file defines nothing to refer to
+		}
 		fmt.Fprintf(&b, "\t%d -> T%d a%d;\n", k+2, j, j)
 	}
 	b.WriteString("}\n")
@@ -223,6 +232,44 @@ func runC18(c *Ctx) (int, error) {
 			}
 		}
 		events = append(events, e)
+		// the same graph with every imported file that itself imports something written as an umbrella file (import lines
+		// only): what is reachable only through it still belongs to the inlined schema
+		if ic.Mode == "combined" && !ic.ImportCyclic && !ic.PathBroken && res == "nil" {
+			bare := map[int]bool{}
+			for i := 2; i <= ic.N; i++ {
+				if len(ic.Files[i-1].Imports) > 0 {
+					bare[i] = true
+				}
+			}
+			if len(bare) > 0 {
+				bareFiles = bare
+				for i := 1; i <= ic.N; i++ {
+					_ = os.WriteFile(filepath.Join(dir, ic.Files[i-1].Dir, fmt.Sprintf("f%d.bop", i)), []byte(fileText(ic, i)), 0o644)
+				}
+				bres, bmsg, btypes, bsrc := generateRootSrc(filepath.Join(dir, "f1.bop"), ic.Mode, 20*time.Second)
+				be := map[string]interface{}{"samecode": true, "compiles": "", "mode": ic.Mode, "res": bres, "msg": bmsg, "iscycle": false, "types": btypes, "openfail": false,
+					"pkgcyclic": ic.PkgCyclic, "importcyclic": false, "missingpkg": false, "pathbroken": false,
+					"inlineres": "", "inlinetypes": []string{}, "ladder": false, "n": ic.N, "g": ic.G, "files": ic.Files, "umbrella": true}
+				var b strings.Builder
+				b.WriteString(fileBody(ic, 1))
+				for _, j := range ic.Inline {
+					b.WriteString(fileBody(ic, j))
+				}
+				ip := filepath.Join(dir, "inline_umbrella.bop")
+				_ = os.WriteFile(ip, []byte(b.String()), 0o644)
+				ires, _, itypes, isrc := generateRootSrc(ip, "combined", 20*time.Second)
+				be["inlineres"], be["inlinetypes"] = ires, itypes
+				if bres == "nil" && ires == "nil" {
+					be["samecode"] = codeOf(bsrc) == codeOf(isrc)
+					h := sha256.Sum256(bsrc)
+					key := "h" + hex.EncodeToString(h[:8])
+					toBuild[key] = bsrc
+					be["buildkey"] = key
+				}
+				events = append(events, be)
+				bareFiles = nil
+			}
+		}
 		_ = os.RemoveAll(dir)
 	}
 	// every distinct combined output is compiled
